@@ -238,6 +238,20 @@ class _NestExec:
             tgt = C.strip_casts(st["x"])
             if tgt.get("k") == "Ref" and isinstance(env.get(tgt.get("id")), int):
                 env[tgt["id"]] += 1 if "++" in st["op"] else -1
+            elif tgt.get("k") == "Ref" and isinstance(env.get(tgt.get("id")), sp.Basic):
+                env[tgt["id"]] = env[tgt["id"]] + (1 if "++" in st["op"] else -1)
+            elif tgt.get("k") == "Idx" and C.strip_casts(tgt["a"]).get("k") == "Ref" and \
+                    isinstance(env.get(C.strip_casts(tgt["a"]).get("id")), list):
+                i = self.value(tgt["i"], env)
+                if not isinstance(i, int):
+                    raise AnalysisBroken("%s: array element with a symbolic index is stepped (line %s)" %
+                                         (self.fn["full"], st.get("l")))
+                arr = list(env[C.strip_casts(tgt["a"])["id"]])
+                arr[i] = arr[i] + (1 if "++" in st["op"] else -1)
+                env[C.strip_casts(tgt["a"])["id"]] = arr
+            elif tgt.get("k") in ("Ref", "Idx"):
+                raise AnalysisBroken("%s: `%s` steps a quantity the sweep evaluator does not track (line %s)" %
+                                     (self.fn["full"], C.pretty(st)[:40], st.get("l")))
         elif k == "Call" and C.is_call(st, name=self.callee):
             args = st["a"]
             rec = {"call": st, "axis": self.value(args[0], env), "ranges": list(ranges), "env": dict(env)}
@@ -263,6 +277,8 @@ class _NestExec:
             pass
         elif k == "Call" or k in ("Return",):
             pass
+        elif k in ("While", "Do", "Switch", "RangeFor"):
+            raise AnalysisBroken("%s: %s statement at line %s is not read by the sweep evaluator" % (self.fn["full"], k, st.get("l")))
 
 
 def check_inner(chk, u, name, callee, spacing_member):
